@@ -1542,7 +1542,9 @@ def check_C11(tier_, sd, consts_ok, consts_detail):
     for n in range(1, 6 if tier_ == "quick" else 7):
         for combo in itertools.product(toks, repeat=n):
             s = "".join(combo)
-            # D7: ordinary names; a name starting with `..` has the stem `.` or `..`, which std::path treats as a directory reference
+            # D7: ordinary names. The raw Rust function `remove_txtpp` is compared here; for a name whose stem is `.`/`..` it leaves the
+            # directory, and IOCtx::new refuses the source afterwards (F8) - the model's remove_txtpp includes that refusal, so these
+            # names are compared at the level of whole runs below, not function by function
             if s in (".", "..") or "/" in s or s.startswith(".."): continue
             names.append(s)
     names = sorted(set(names))
@@ -1569,6 +1571,12 @@ def check_C11(tier_, sd, consts_ok, consts_detail):
                 if r.chance(1, 4) or (nm_.startswith("q.") and d == "/" and k % 3 == 0):
                     path = (d.rstrip("/") + "/" + nm_)
                     p.files.append((path, ("content of %s\n" % path).encode())); placed.append(path)
+        if k % 9 == 4:
+            # a source whose stem is `.`: removing the extensions leaves no file name beside the source; it must be refused with nothing
+            # written anywhere (fix F8; Path.remove_txtpp answers None: props/C11 dot_stem_sources_are_refused_before_anything_is_written)
+            path = r.choice(["/sub/deep/", "/sub/", "/"]) + r.choice(["..txtpp.md", "..txtpp", "..txtpp.txtpp", "..txtpp."])
+            p.files.append((path, b"dot stem\n")); placed.append(path)
+            p.files.append(("/deep.md", b"must stay\n")); p.files.append(("/sub.md", b"must stay\n"))
         p.dirs = ["/sub", "/sub/deep", "/d.txtpp", "/emptydir"]
         p.base = r.choice(["/", "/", "/sub"])
         p.recursive = r.chance(1, 2)
